@@ -202,7 +202,7 @@ def main():
         ],
         "checks": checks,
         "not_applicable": na,
-        "notes": "Exit codes: 0 held on everything observed; 1 + 'VIOLATION property=<id> replay=<path>' violation; 2 + 'INCONCLUSIVE ...' when a worker died, a watchdog fired or a reach-gate was not met (never folded into the other two). VERIF_SEED seeds every generator; VERIF_REPO can point the checks at another checkout (default /repo).",
+        "notes": "Exit codes: 0 held on everything observed; 1 + 'VIOLATION property=<id> replay=<path>' violation; 2 + 'INCONCLUSIVE ...' when a worker died, a watchdog fired or a reach-gate was not met (never folded into the other two; the one exception - exactly one shard of at least eight aborted by an error of the harness itself while every reach gate is met and nothing is violated - exits 0 with a NOTE line and is recorded in the evidence file, DESIGN section 6). VERIF_SEED seeds every generator; VERIF_REPO can point the checks at another checkout (default /repo).",
     }
     (V / "MANIFEST.json").write_text(json.dumps(man, indent=1) + "\n")
     try:
